@@ -196,6 +196,9 @@ def pool_output_size(
     n = p.mul(2).add_(m).sub_(k.sub(1).mul_(d)).sub_(1).float().div_(s).add_(1)
     n = n.ceil() if ceil_mode else n.floor()
     n = n.long()
+    if ceil_mode:
+        # Last pooling window must start inside the input or left padding
+        n = torch.where(n.sub(1).mul(s).ge(m.add(p)), n.sub(1), n)
     if isinstance(in_size, int):
         return n[0].item()
     return Size(n.tolist())
